@@ -89,6 +89,8 @@ RULE = (
     'kinds that carry the server\'s own continuation state (144 cases, a sixth of them in the quick tier).'
 )
 ASSUMPTIONS = [
+    'a third of the world cases put the victim host behind bumble.transport.common.PacketParser (case key "stream"), the way every '
+    'byte-stream transport delivers controller packets; the others hand packets to Host.on_packet directly (in-process wiring)',
     '"terminates promptly" = at most CAP interpreter events (sys.monitoring LINE+JUMP) while the virtual loop '
     'processes one injected frame to quiescence; CAP is 5 M and asserted to be >= 50x the most expensive '
     'well-formed frame measured at start-up; a hit is re-run with 10x CAP and only a second hit is a violation',
@@ -357,7 +359,7 @@ def _smp_pairing_request() -> bytes:
 
 async def build_le(rig: Rig, case) -> None:
     b = B()
-    w = world.World(1)
+    w = world.World(1, stream=bool(case.get('stream')))
     node = w[0]
     rig.victim, rig.link, rig.vname = node, w.link, node.controller.name
     _gatt_setup(node.device, rig)
@@ -789,7 +791,7 @@ def _detach(channel, store: list):
 async def build_classic(rig: Rig, case) -> None:
     b = B()
     opens = rig.opens
-    w = world.World(2, classic=True)
+    w = world.World(2, classic=True, stream=bool(case.get('stream')))
     peer, node = w[0], w[1]
     rig.victim, rig.link, rig.vname = node, w.link, node.controller.name
     dev = node.device
@@ -1700,7 +1702,9 @@ def case_strategy():
 
     le = st.sampled_from(LE_TARGETS).flatmap(lambda t: build('le', t))
     classic = st.sampled_from(CLASSIC_TARGETS).flatmap(lambda t: build('classic', t))
-    return st.one_of(le, classic, classic)
+    # 'stream': the victim's host sits behind bumble.transport.common.PacketParser, as with every byte-stream transport
+    return st.tuples(st.one_of(le, classic, classic), st.sampled_from([False, False, True])).map(
+        lambda t: {**t[0], 'stream': True} if t[1] else t[0])
 
 
 LE_CLIENT_TARGETS = ['gattc']
@@ -2053,6 +2057,9 @@ def exec_world(case, cap_scale: int = 1) -> Result:
                     res.labels.add('sdp:continuation_served')
             if burst > 1 and len(frames) > 1:
                 res.labels.add('burst')
+            if case.get('stream'):
+                res.labels.add('victim_behind_packet_parser')
+                res.labels.add(f'victim_behind_packet_parser:{case["world"]}')
             if any(c.startswith('sleep:') for c, _d, _o in frames):
                 res.labels.add('peer_silent_30s')
             for op, task, box in rig.state.get('pending') or []:
@@ -2642,6 +2649,8 @@ def run(ctx) -> None:
     for kind, targets in (('le', LE_TARGETS), ('classic', CLASSIC_TARGETS)):
         for t in targets:
             ctx.floor(f'target:{kind}/{t}', 8)
+    ctx.floor('victim_behind_packet_parser:le', 20)
+    ctx.floor('victim_behind_packet_parser:classic', 20)
     for lab in ('victim_replied', 'stack_raised', 'origin:mut', 'origin:rand', 'hci:event', 'hci:acl', 'hci:sco', 'hci:iso',
                 'hci:other_type', 'valid_disconnect', 'assembler_mid_message', 'ref_ok:att', 'ref_ok:echo', 'ref_ok:sdp',
                 'ref_ok:at', 'ref_ok:athf', 'ref_ok:avdtp', 'ref_ok:avctp', 'ref_ok:smp', 'ref_ok:lesig', 'ref_ok:hci',
